@@ -40,8 +40,12 @@ func NewEval(opts CompilerOptions, globals Object, args ...Object) *Eval {
 
 // Run compiles, runs given script and returns last value on stack.
 func (r *Eval) Run(ctx context.Context, script []byte) (Object, *Bytecode, error) {
+	numModules := r.moduleStore.count
 	bytecode, err := compileScript(script, &r.Opts, &r.moduleStore)
 	if err != nil {
+		// forget the modules registered by the failed compilation, their
+		// constants were never added to the constants of this Eval.
+		r.moduleStore.truncate(numModules)
 		return nil, nil, err
 	}
 
